@@ -26,7 +26,7 @@ COMPONENTS = {'real': ['yldprolog.compiler pipeline', 'yldprolog.engine (YP subc
                        'generated clause code', 'CPython generators / refcount finalisation'],
               'stub': ['consumer (abandons at every k by close/drop/throw)', 'native predicates (harness generators with raise switches)'],
               'oracle': ['self-referential: registry snapshot equality, nested-query restore on the exhaustion path, re-run equality with the fault-free run']}
-REQUIRED_PROBES = ('fault_bystander_inner', 'fault_bystander_outer', 'fault_unify_k0', 'fault_unify_k1', 'fault_bounded_projection_raised', 'fault_close', 'fault_drop', 'fault_throw', 'fault_user_raise_fired', 'abandoned_with_bound_vars',
+REQUIRED_PROBES = ('fault_twin_activation', 'fault_clear_while_suspended', 'fault_bystander_inner', 'fault_bystander_outer', 'fault_unify_k0', 'fault_unify_k1', 'fault_bounded_projection_raised', 'fault_close', 'fault_drop', 'fault_throw', 'fault_user_raise_fired', 'abandoned_with_bound_vars',
                    'abandoned_with_2plus_live_queries', 'worlds_with_prebinding')
 
 ANSWER_CAP = 12
@@ -438,6 +438,35 @@ def execute(plan):
                                             'note': 'the run differs when nested queries are not observed in between: reading variables changes the answers'})
             return log.result()
         n = len(r1[0])
+        clear_fault = None
+        qshape = world['query'][1]
+        fresh_shape = all(t[0] == 'v' for t in qshape) and not held
+
+        def fresh_run():
+            """the same query over fresh variables (same sharing pattern), enumerated to the end; canonical answers"""
+            fv = {}
+            fargs = [TM.build(yp, TM.T(t), fv) for t in qshape]
+            out_, end_ = [], 'exhausted'
+            g_ = GenTask(yp.query(name, fargs))
+            try:
+                while g_.step():
+                    out_.append(TM.observe_canon(fargs))
+                    if len(out_) >= ANSWER_CAP:
+                        g_.close()
+                        end_ = 'cap-closed'
+                        break
+            except RecursionError:
+                end_ = 'exc:RecursionError'
+            except Exception as e:
+                end_ = 'exc:' + type(e).__name__
+            return out_, end_
+        fresh_ref = None
+        if fresh_shape:
+            sim.monitor = False
+            try:
+                fresh_ref = fresh_run()
+            finally:
+                sim.monitor = True
         if plan['faults'] == 'all':
             faults = [['abandon', k, mode] for k in range(n + 1) for mode in ('close', 'drop', 'throw')]
             faults += [['raise', j, ph, core.INJECTED_KINDS[(j + i) % 4]] for j in range(1, min(ncalls, MAX_RAISE_POINTS) + 1) for i, ph in enumerate(('pre', 'resume'))]
@@ -452,10 +481,47 @@ def execute(plan):
                        for k in range(min(n, 3) + 1) for i in range(2)]
             # ... and one that binds a variable of the query's own arguments which the query's current answer leaves unbound
             faults += [['bystander', k, ('close', 'drop', 'resume', 'throw')[k % 4], 'inner', 'shared'] for k in range(1, min(n, 3) + 1)]
+            # ... and a second activation of the very same query (fresh variables) run from start to end while the first is
+            # suspended at its k-th answer: clause-local and anonymous variables are per activation
+            if fresh_shape:
+                faults += [['twin', k] for k in range(1, min(n, 3) + 1)]
+            # last of all: clear() while the query is suspended at its k-th answer (the engine forgets its program; the
+            # answer's bindings are the consumer's), then the query is ended
+            clear_fault = ['clear', min(n, 2), ('close', 'drop', 'resume')[n % 3]]
         else:
             faults = plan['faults']
         for fault in faults:
             log.count('cases')
+            if fault[0] == 'twin':
+                k = min(fault[1], n)
+                task = GenTask(yp.query(name, qargs))
+                got1 = []
+                while len(got1) < k and task.step():
+                    got1.append(observe_answer(sim, qargs))
+                sim.monitor = False
+                try:
+                    r2 = fresh_run()
+                finally:
+                    sim.monitor = True
+                still = observe_answer(sim, qargs) if len(got1) == k and k else None
+                task.close()
+                log.count('fault_twin_activation')
+                log.ev('F', 'twin', k, len(r2[0]), r2[1], core.short_hash(r2[0]))
+                if r2[1].startswith('exc:') or fresh_ref[1].startswith('exc:'):
+                    continue
+                if r2 != fresh_ref:
+                    log.violation('second-activation-differs', {'fault': fault, 'answers': len(r2[0]), 'alone': len(fresh_ref[0]), 'end': r2[1], 'end_alone': fresh_ref[1],
+                                                                'note': 'the same query over fresh variables, run while the first was suspended at its answer %d' % k})
+                    return log.result()
+                if still is not None and still != got1[-1]:
+                    log.violation('answer-bindings-lost-while-suspended', {'fault': fault, 'answer_index': k - 1})
+                    return log.result()
+                if check_after(fault, got1, 'closed', {'calls': 0, 'fired': 0}, r1):
+                    return log.result()
+                continue
+            if fault[0] == 'clear':
+                clear_fault = fault
+                continue
             if fault[0] == 'abandon':
                 k, mode = min(fault[1], n), fault[2]
                 # a drop is judged on exactly the object YP.query returned (no monitor wrapper around it)
@@ -530,6 +596,31 @@ def execute(plan):
         if (rl[0], rl[1]) != (r1[0], r1[1]):
             log.violation('rerun-differs', {'fault': ['R_last'], 'end': rl[1], 'expected_end': r1[1], 'answers': len(rl[0]), 'expected_answers': len(r1[0])})
             return log.result()
+        if clear_fault is not None:
+            log.count('cases')
+            k = min(clear_fault[1], n)
+            task = GenTask(yp.query(name, qargs))
+            got1 = []
+            while len(got1) < k and task.step():
+                got1.append(observe_answer(sim, qargs))
+            before = observe_answer(sim, qargs)
+            yp.clear()
+            after = observe_answer(sim, qargs)
+            log.count('fault_clear_while_suspended')
+            log.ev('F', 'clear', k, clear_fault[2])
+            if after != before:
+                log.violation('clear-changed-bindings', {'fault': clear_fault, 'answer_index': len(got1) - 1})
+                return log.result()
+            from ..machine import end_task
+            try:
+                end_task(task, clear_fault[2])
+            except Exception as e:
+                log.ev('clear-end', type(e).__name__)
+            task = None
+            del sim.nested_violations[:]
+            if not sim.restored(base):
+                log.violation('binding-not-restored', {'fault': clear_fault, 'end': clear_fault[2], 'difference': sim.first_difference(base)})
+                return log.result()
         if sim.unraisable:
             log.count('unraisable_in_finalisers', len(sim.unraisable))
         log.count('max_live_queries_%d' % min(sim.max_live, 6))
@@ -547,7 +638,7 @@ def execute(plan):
 
 def narrow(plan, viol):
     f = viol['detail'].get('fault')
-    if f and f[0] in ('abandon', 'raise', 'bounded', 'unify', 'bystander'):
+    if f and f[0] in ('abandon', 'raise', 'bounded', 'unify', 'bystander', 'twin', 'clear'):
         c = dict(plan)
         c['faults'] = [f]
         return c
